@@ -30,7 +30,7 @@ import (
 
 func TestMain(m *testing.M) { ev.Main(m) }
 
-var rec = ev.For("C11", "rapid-drawn workloads on one gopcua client<->server channel pair (policy None or a signed policy in Sign mode so sequence headers are readable; 2-6 request senders x 2-8 requests of single- and multi-chunk size; 1-4 concurrent server-side responders; 0-3 token renewals; starting sequence numbers incl. just below the wrap point) with holds drawn at the verif scheduling points (sender after fetching the active instance vs. renewal copying the counter, responder vs. server-side renewal, between chunks); non-trivial = >= 2 senders and a renewal or a multi-chunk message overlapped another send according to the realised point log; distinct by hash of the case")
+var rec = ev.For("C11", "rapid-drawn workloads on one gopcua client<->server channel pair (policy None or a signed policy in Sign mode so sequence headers are readable; 2-6 request senders x 2-8 requests of single- and multi-chunk size; 1-4 concurrent server-side responders; 0-3 token renewals, in a third of the cases with renewals one renewal request is swallowed on the wire so that Renew times out after its chunk used a sequence number; starting sequence numbers incl. just below the wrap point) with holds drawn at the verif scheduling points (sender after fetching the active instance vs. renewal copying the counter, responder vs. server-side renewal, between chunks); non-trivial = >= 2 senders and (a renewal or a multi-chunk message overlapped another send according to the realised point log, or a renewal request was swallowed); distinct by hash of the case")
 
 type caseT struct {
 	Policy     string       `json:"policy"`
@@ -42,6 +42,11 @@ type caseT struct {
 	ClientSeq  uint32       `json:"client_start_seq"` // 0 = leave
 	ServerSeq  uint32       `json:"server_start_seq"`
 	Rules      []sched.Rule `json:"rules"`
+	// DropRenew: the k-th renewal request (1 = first renewal) of the client is
+	// swallowed on its way to the server, so that Renew fails with a timeout
+	// after the OPN chunk has used a sequence number; the senders go on with
+	// the old token. 0 = none. (Added after seeded change C11-B.)
+	DropRenew int `json:"drop_renewal_request,omitempty"`
 }
 
 var ruleMenu = []sched.Rule{
@@ -95,6 +100,9 @@ func genCase(t *rapid.T) caseT {
 	default:
 		c.ServerSeq = 1
 	}
+	if len(c.RenewAt) > 0 && rapid.IntRange(0, 2).Draw(t, "failingRenewal") == 0 {
+		c.DropRenew = rapid.IntRange(1, len(c.RenewAt)).Draw(t, "dropRenew")
+	}
 	for i, n := 0, rapid.IntRange(0, 4).Draw(t, "nrules"); i < n; i++ {
 		r := rapid.SampledFrom(ruleMenu).Draw(t, "rule")
 		r.Skip = rapid.IntRange(0, 6).Draw(t, "skip")
@@ -121,8 +129,29 @@ func run(c caseT) (res result) {
 	small := func() *uacp.Acknowledge {
 		return &uacp.Acknowledge{ReceiveBufSize: 8192, SendBufSize: 8192, MaxChunkCount: 512, MaxMessageSize: 2 << 20}
 	}
+	// the capture is taken in the hook: it also holds the frames that are not forwarded
+	var capMu sync.Mutex
+	var capture []netx.Frame
+	opnReqs, dropped := 0, false
+	hook := func(dir netx.Dir, conn int, f []byte) [][]byte {
+		capMu.Lock()
+		defer capMu.Unlock()
+		capture = append(capture, netx.Frame{Dir: dir, Data: append([]byte(nil), f...), At: time.Now(), Conn: conn})
+		if dir == netx.C2S && len(f) > 3 && string(f[:3]) == "OPN" {
+			opnReqs++ // 1 = the initial OpenSecureChannel
+			if c.DropRenew > 0 && opnReqs == c.DropRenew+1 {
+				dropped = true
+				return nil
+			}
+		}
+		return [][]byte{f}
+	}
+	reqTimeout := 4 * time.Second
+	if c.DropRenew > 0 {
+		reqTimeout = 700 * time.Millisecond
+	}
 	p, err := chanpair.New(chanpair.Options{Policy: c.Policy, Mode: mode, ClientKey: keys.Get("a", ks[0]), ServerKey: keys.Get("b", ks[0]),
-		ClientACK: small(), ServerACK: small(), Tap: true, ServerSeq: c.ServerSeq, RequestTimeout: 4 * time.Second})
+		ClientACK: small(), ServerACK: small(), Tap: true, Hook: hook, ServerSeq: c.ServerSeq, RequestTimeout: reqTimeout})
 	if err != nil {
 		return result{inconclusive: true, classes: []string{"infra:" + err.Error()}}
 	}
@@ -222,7 +251,10 @@ func run(c caseT) (res result) {
 	}
 	ctrl.Stop()
 	time.Sleep(20 * time.Millisecond)
-	frames := p.Tap.Frames()
+	capMu.Lock()
+	frames := append([]netx.Frame(nil), capture...)
+	wasDropped := dropped
+	capMu.Unlock()
 	cancel()
 	p.Close()
 
@@ -250,7 +282,10 @@ func run(c caseT) (res result) {
 			multi = true
 		}
 	}
-	res.nontrivial = c.Senders >= 2 && ((len(c.RenewAt) > 0 && (overlap || ctrl.Satisfied() > 0)) || multi)
+	res.nontrivial = c.Senders >= 2 && ((len(c.RenewAt) > 0 && (overlap || ctrl.Satisfied() > 0)) || multi || wasDropped)
+	if wasDropped {
+		res.classes = append(res.classes, "renewal-request-swallowed(Renew-fails,senders-continue)")
+	}
 	res.classes = append(res.classes, fmt.Sprintf("renewals:%d", len(c.RenewAt)), fmt.Sprintf("rules-satisfied:%v", ctrl.Satisfied() > 0), fmt.Sprintf("multi-chunk:%v", multi), "policy:"+c.Policy[strings.LastIndex(c.Policy, "#")+1:])
 	if reqErrs > 0 {
 		res.classes = append(res.classes, "some-request-failed")
